@@ -69,6 +69,27 @@
 (* failures are counted against the node list of ANOTHER kind, RefKind - seeded/C08-allfailed-     *)
 (* early-return-wrong-count), right whenever the two lists are equally long and REJECTED by TLC     *)
 (* when kind's list is longer (vacuity self-check).                                               *)
+(*                                                                                                *)
+(* THE SIBLING FAN-OUTS (round 5).  The boundary of the specification is where the PROPERTY draws  *)
+(* it - "every submission is offered in full to every beacon node configured for it" - not where   *)
+(* services/submitter ends.  main.go fans a submission out to several nodes WITHOUT the submitter   *)
+(* in three places (SubmitterClassifier: DirectKinds): the proposal preparer's own loop over the    *)
+(* nodes configured for proposing ("prepdirect" - in a running Vouch NO proposal preparation goes   *)
+(* through the submitter's "prep"), the block relay's fan-out of validator registrations to the     *)
+(* secondary beacon nodes ("regnodes") and to the relays ("regrelays").  They are values of `kind`   *)
+(* with a mechanism of their own (CompleteD / AbortD / ReturnD: a loop or a WaitGroup, the caller's *)
+(* context, no time-out, no result) and THE SAME invariants: OfferedInFull (for a fan-out without   *)
+(* time-out: whenever every node answers at all), Independence, and DeliveredToEach - a call the     *)
+(* fan-out made ends with the NODE's own outcome, never because the fan-out tore it down.  Every     *)
+(* node call carries a context and the environment honours it like an HTTP client: AbortD(n) ends a  *)
+(* call in flight once its context is cancelled; the reply "aborted" is an observation of its own.   *)
+(* Designs of the sibling fan-outs: the code's ("asks": sequential for the preparer, one goroutine   *)
+(* per node for the registrations), "parfan" (every sibling fan-out parallel, each call with the     *)
+(* caller's context; satisfies C08 and makes the fan-out Roomy) and the deviations TLC must REJECT:  *)
+(* "errgroup" (parallel, ONE derived context for the whole fan-out, cancelled by the first call that *)
+(* fails - errgroup.WithContext, seeded/C08-preparer-errgroup-aborts-healthy-nodes: the call to a    *)
+(* healthy node that is still in flight is torn down, DeliveredToEach) and "seqstop" (the loop gives *)
+(* up at the first failure: OfferedInFull).                                                         *)
 EXTENDS Integers, Sequences, FiniteSets, TLC, SubmitterScatter, SubmitterClassifier
 
 CONSTANTS KindSet,      \* submission kinds explored
@@ -79,7 +100,8 @@ CONSTANTS KindSet,      \* submission kinds explored
           HistClients,  \* client types of the instance's nodes in histories ({}: the canonical nodes
                         \* of the single-submission quantifier, MaxCalls = 1)
           HistOutcomes, \* outcomes a node can show at one submission of a history
-          Design,       \* "asks" | "cacheok" | "memofail" | "sharedsem" | "allfailed" | "wrongcount" (see above)
+          Design,       \* "asks" | "cacheok" | "memofail" | "sharedsem" | "allfailed" | "wrongcount" |
+                        \* "parfan" | "errgroup" | "seqstop" (see above)
           MaxLat,       \* number of in-time clock phases after the start = ranks of delayed replies (>= 2)
           CanonOuts,    \* single submissions: the outcomes assigned to the configured nodes ({}: Outcomes)
           ConfSets,     \* node lists a kind can be configured with ({}: every kind has the whole pool)
@@ -98,10 +120,11 @@ VARIABLES kind, conc, items, nodes,       \* configuration of this submission (n
           callNo,     \* INSTANCE: index of the current submission in the history
           offered,    \* per node: sequence of chunks it was called with
           callAt,     \* per node: "no" | "early" | "amb" | "late": when its first call arrived (relative to the start)
-          reply,      \* per node: "none" | "accept" | "error"
+          reply,      \* per node: "none" | "accept" | "error" | "aborted" (the call was ended by the cancellation
+                      \* of the context the fan-out gave it, not by the node)
           done,       \* per node: "no" | "before" | "amb" | "after": when it finished replying, relative to T
           pre,        \* per node: it finished replying before the submission returned
-          ret,        \* "none" | "ok" | "err"
+          ret,        \* "none" | "ok" | "err" | "done" (a sibling fan-out is over; it reports nothing)
           retAt,      \* "none" | "before" | "amb" | "after": return instant relative to T
           final       \* the observation is over (everything that happens by T + tolerance has happened)
 
@@ -175,7 +198,15 @@ Count(chunks, i) == Cardinality({p \in {<<c, k>> : c \in 1..Len(chunks), k \in 1
 InRange(chunks) == \A c \in 1..Len(chunks) : \A k \in 1..Len(chunks[c]) : chunks[c][k] \in 0..(items - 1)
 Whole(n) == InRange(offered[n]) /\ \A i \in 0..(items - 1) : Count(offered[n], i) = 1
 AllQuick == \A n \in N : nodes[n].out \in {"accept", "error"}
-Roomy == conc >= Cardinality(N)
+\* every node answers, sooner or later (a fan-out without time-out waits for each of them)
+AllRespond == \A n \in N : nodes[n].out \in {"accept", "error", "slowok", "slowerr", "late"}
+\* how many node calls the fan-out has in flight at a time: the configured process concurrency of the
+\* submitter; 1 for a sibling fan-out that walks over its nodes (the preparer's loop), every node for
+\* one that starts a goroutine per node
+ParDesign == Design \in {"parfan", "errgroup"}
+EffConc == IF Timed(kind) THEN conc
+           ELSE IF kind \in SeqKinds /\ ~ ParDesign THEN 1 ELSE Cardinality(N)
+Roomy == EffConc >= Cardinality(N)
 
 \* (N is the node list of THIS kind: with per-kind lists of different sizes "every node", "room for
 \* every node" and - in SuccessIff - "some node" are about conf[kind] and nothing else.)
@@ -185,21 +216,31 @@ Roomy == conc >= Cardinality(N)
 \* other submissions running now do is not part of the proviso: Roomy / AllQuick are about this
 \* submission alone.)
 OfferedInFull ==
-    final => /\ (Roomy \/ AllQuick) => \A n \in N : callAt[n] # "no" /\ Whole(n)
+    final => /\ (Roomy \/ AllQuick \/ (~ Timed(kind) /\ AllRespond)) => \A n \in N : callAt[n] # "no" /\ Whole(n)
              /\ \A n \in N : InRange(offered[n]) /\ \A i \in 0..(items - 1) : Count(offered[n], i) <= 1
 
 \* C08: reported successful exactly when, within the time-out, some node accepted or
 \* tolerated-rejected.  A success needs an acceptance that precedes the return; a failure must
 \* not coexist with an acceptance that clearly preceded the time-out.
 SuccessIff ==
-    final => /\ ret = "ok" => \E n \in N : MayAccept(n) /\ pre[n]
+    (final /\ Timed(kind)) =>
+             /\ ret = "ok" => \E n \in N : MayAccept(n) /\ pre[n]
              /\ ret = "err" => ~ \E n \in N : MustAccept(n) /\ done[n] = "before"
 
 \* C08: returns no later than the time-out (also when every completion signal was lost).
-ReturnsByTimeout == final => ret # "none" /\ retAt # "after"
+\* (the sibling fan-outs have no time-out and report nothing)
+ReturnsByTimeout == (final /\ Timed(kind)) => ret # "none" /\ retAt # "after"
 
 \* C08, last sentence: with room for every node, no node's delivery waits for another node.
 Independence == (final /\ Roomy) => \A n \in N : callAt[n] \notin {"no", "late"}
+
+\* C08, last sentence, at the level of the single node call: what a node is handed really reaches it.
+\* A call the fan-out has made ends with the node's OWN outcome (acceptance, rejection, or no answer at
+\* all) - it is never torn down by the fan-out itself (the cancellation of a context it derived: because
+\* ANOTHER node failed, or accepted) while the submission is still within its time-out.  (After the
+\* time-out the submission is over; giving up on the stragglers then is a legitimate design.  The sibling
+\* fan-outs have no time-out: nothing but the caller ends their calls.)
+DeliveredToEach == \A n \in N : reply[n] = "aborted" => (Timed(kind) /\ done[n] # "before")
 
 -----------------------------------------------------------------------------
 (* Layer 3: the mechanism                                                                        *)
@@ -214,7 +255,8 @@ VARIABLES mpc,        \* caller: "pre" (goroutines started, not yet in Wait) | "
           lost,       \* dropped signals (observation only)
           memo,       \* INSTANCE, designs "cacheok" / "memofail" only: per node the remembered client type ("unset": nothing yet)
           held,       \* INSTANCE, design "sharedsem" only: permits still held by node calls of earlier submissions
-          fails       \* designs "allfailed" / "wrongcount" only: node goroutines of this submission that have failed
+          fails       \* designs "allfailed" / "wrongcount", and every sibling fan-out: node goroutines / loop
+                      \* iterations of this submission that have failed
 
 mvars == <<mpc, npc, sem, due, completed, tpc, clock, lost, memo, held, fails>>
 vars == <<cvars, ivars, ovars, mvars>>
@@ -223,7 +265,10 @@ vars == <<cvars, ivars, ovars, mvars>>
 TAt == MaxLat + 1
 TAfter == MaxLat + 2
 AtOfCall == IF clock = 0 THEN "early" ELSE "late"
-AtOfClock == IF clock < TAt THEN "before" ELSE IF clock = TAt THEN "amb" ELSE "after"
+AtOfClock == IF ~ Timed(kind) \/ clock < TAt THEN "before" ELSE IF clock = TAt THEN "amb" ELSE "after"
+\* the end of the observation: after the time-out; a fan-out without time-out is watched until every node
+\* that answers at all has answered, also one after the other
+ClockEnd == IF Timed(kind) THEN TAfter ELSE TAfter + (MaxLat + 1) * Cardinality(N)
 
 \* what every node does at one submission of a history: outcome x version query
 \* (a peer that is not configured for kind k plays no part in the submission: one fixed description)
@@ -232,12 +277,12 @@ HistVector(k, clientOf) ==
         f \in {g \in [DOMAIN clientOf -> HistOutcomes \X Vers] : \A n \in DOMAIN clientOf \ conf[k] : g[n] = <<"accept", "ok">>}}
 
 MechInit ==
-    /\ mpc = "pre"
+    /\ mpc = IF Timed(kind) THEN "pre" ELSE "waiting"      \* a sibling fan-out: the loop itself / wg.Wait()
     /\ npc = [n \in N |-> "start"]
     /\ sem = 0
     /\ due = [n \in N |-> 99]
     /\ completed = FALSE
-    /\ tpc = "armed"
+    /\ tpc = IF Timed(kind) THEN "armed" ELSE "done"       \* ... has no time-out
     /\ clock = 0
     /\ lost = 0
     /\ fails = 0
@@ -255,11 +300,11 @@ Init ==
        THEN \* one submission: what matters of the configuration is the node list of its kind and (for the
             \* design that looks at another kind's list) the list all other kinds have
             \E k \in NodeCounts : \E own \in ConfsFor(k), other \in OthersFor(k) :
-               /\ conf = [kk \in Kinds |-> IF kk = kind THEN own ELSE other]
+               /\ conf = [kk \in AllKinds |-> IF kk = kind THEN own ELSE other]
                /\ nodes \in [1..k -> {Canon(kind, o) : o \in InitOuts}]
                /\ \A n \in (1..k) \ own : nodes[n] = Canon(kind, "accept")
        ELSE \E k \in NodeCounts : \E cf \in [KindSet -> ConfsFor(k)] :
-               /\ conf = [kk \in Kinds |-> IF kk \in KindSet THEN cf[kk] ELSE 1..k]
+               /\ conf = [kk \in AllKinds |-> IF kk \in KindSet THEN cf[kk] ELSE 1..k]
                /\ \E cl \in [1..k -> HistClients] : nodes \in HistVector(kind, cl)
     /\ ObsInit
     /\ InstInit
@@ -293,9 +338,13 @@ ClassClient(n) ==
 
 \* sem.Acquire succeeded; the node is looked up (address, version) and called with the payload
 \* (Scatter chunks for attestations)
+\* (a sibling fan-out: the loop reaches the node / the node's goroutine starts; design "seqstop": the
+\* loop has given up)
+Stopped == ~ Timed(kind) /\ Design = "seqstop" /\ fails > 0
 AcquireCall(n) ==
     /\ npc[n] = "start"
-    /\ sem + held < conc
+    /\ sem + held < EffConc
+    /\ ~ Stopped
     /\ sem' = sem + 1
     /\ npc' = [npc EXCEPT ![n] = "calling"]
     /\ due' = [due EXCEPT ![n] = DueOf(nodes[n])]
@@ -311,6 +360,7 @@ FailBound == IF Design = "wrongcount" THEN Cardinality(conf[RefKind]) ELSE Cardi
 \* the node replied; the code classifies the reply and, for an (effective) acceptance, sets the flag
 \* (designs that count failures: the goroutine whose failure reaches the bound signals the caller)
 Complete(n) ==
+    /\ Timed(kind)
     /\ npc[n] = "calling"
     /\ due[n] <= clock
     /\ LET r == IF IsErr(nodes[n]) THEN "error" ELSE "accept"
@@ -330,6 +380,43 @@ Complete(n) ==
                          /\ sem' = sem - 1
                          /\ fails' = IF CountsFailures THEN fails + 1 ELSE fails
     /\ UNCHANGED <<cvars, ivars, offered, callAt, ret, retAt, final, mpc, due, tpc, clock, lost, memo, held>>
+
+\* ---- the sibling fan-outs (DirectKinds): a loop or a WaitGroup, no flag, no signal, no time-out
+\* the node replied: the loop goes on / the goroutine ends.  A failure of the node's own is counted
+\* ("not active" is not one for the preparer; it cancels nothing in any design)
+RealFailure(nd) == IsErr(nd) /\ nd.reason # "notActive"
+CompleteD(n) ==
+    /\ ~ Timed(kind)
+    /\ npc[n] = "calling"
+    /\ due[n] <= clock
+    /\ ObsComplete(n, IF IsErr(nodes[n]) THEN "error" ELSE "accept", AtOfClock)
+    /\ npc' = [npc EXCEPT ![n] = "end"]
+    /\ sem' = sem - 1
+    /\ fails' = IF RealFailure(nodes[n]) THEN fails + 1 ELSE fails
+    /\ UNCHANGED <<cvars, ivars, offered, callAt, ret, retAt, final, mpc, due, completed, tpc, clock, lost, memo, held>>
+
+\* Env_HonoursContext: every node call carries a context, and the node's client honours it the way an
+\* HTTP client does - once the context is cancelled, a call in flight ends without the node's reply
+\* (when the reply is due at the same moment either can win).  In the intended protocol nobody cancels
+\* the context of a node call; design "errgroup": ONE derived context for the whole fan-out, cancelled
+\* as soon as a call has failed.
+Cancelled(n) == ~ Timed(kind) /\ Design = "errgroup" /\ fails > 0
+AbortD(n) ==
+    /\ npc[n] = "calling"
+    /\ Cancelled(n)
+    /\ ObsComplete(n, "aborted", AtOfClock)
+    /\ npc' = [npc EXCEPT ![n] = "end"]
+    /\ sem' = sem - 1
+    /\ UNCHANGED <<cvars, ivars, offered, callAt, ret, retAt, final, mpc, due, completed, tpc, clock, lost, memo, held, fails>>
+
+\* the loop is over / wg.Wait() returns
+ReturnD ==
+    /\ ~ Timed(kind)
+    /\ mpc = "waiting"
+    /\ \A n \in N : npc[n] = "end" \/ (Stopped /\ npc[n] = "start")
+    /\ mpc' = "ret"
+    /\ ObsReturn("done", AtOfClock)
+    /\ UNCHANGED <<cvars, ivars, offered, callAt, reply, done, pre, final, npc, sem, due, completed, tpc, clock, lost, memo, held, fails>>
 
 \* Go's Cond.Signal: wakes a registered waiter, otherwise does nothing
 SignalEffect ==
@@ -362,19 +449,21 @@ Return ==
 \* Env_StepsAreFast: a code step that can be taken is taken before time passes
 Urgent ==
     \/ mpc \in {"pre", "woken"}
-    \/ \E n \in N : npc[n] = "start" /\ sem + held < conc
+    \/ \E n \in N : npc[n] = "start" /\ sem + held < EffConc /\ ~ Stopped
+    \/ \E n \in N : npc[n] = "calling" /\ Cancelled(n)
+    \/ ~ Timed(kind) /\ mpc = "waiting" /\ \A n \in N : npc[n] = "end" \/ (Stopped /\ npc[n] = "start")
     \/ \E n \in N : npc[n] = "calling" /\ due[n] <= clock
     \/ \E n \in N : npc[n] = "sig"
     \/ tpc = "armed" /\ clock >= TAt
 
 Tick ==
-    /\ clock < TAfter
+    /\ clock < ClockEnd
     /\ ~ Urgent
     /\ clock' = clock + 1
     /\ UNCHANGED <<cvars, ivars, ovars, mpc, npc, sem, due, completed, tpc, lost, memo, held, fails>>
 
 Finish ==
-    /\ clock = TAfter
+    /\ clock = ClockEnd
     /\ ~ Urgent
     /\ ~ final
     /\ final' = TRUE
@@ -389,13 +478,13 @@ NextCall ==
     /\ HistClients # {}
     /\ \E k \in KindSet, it \in ItemSet :
          \E nds \in HistVector(k, [n \in Pool |-> nodes[n].client]) : ObsNextCall(k, it, nds)
-    /\ mpc' = "pre"
+    /\ mpc' = IF Timed(kind') THEN "pre" ELSE "waiting"
     /\ npc' = [n \in conf[kind'] |-> "start"]
     /\ sem' = 0
     /\ due' = [n \in conf[kind'] |-> 99]
     /\ fails' = 0
     /\ completed' = FALSE
-    /\ tpc' = "armed"
+    /\ tpc' = IF Timed(kind') THEN "armed" ELSE "done"
     /\ clock' = 0
     /\ lost' = 0
     /\ memo' = memo
@@ -404,19 +493,22 @@ NextCall ==
 Next ==
     \/ WaitReg \/ TimeoutSignal \/ Return \/ Tick \/ Finish \/ NextCall
     \/ \E n \in N : AcquireCall(n) \/ Complete(n) \/ SignalN(n)
+    \/ ReturnD
+    \/ \E n \in N : CompleteD(n) \/ AbortD(n)
 
 Spec == Init /\ [][Next]_vars
 
 -----------------------------------------------------------------------------
 TypeOK ==
-    /\ kind \in Kinds
+    /\ kind \in AllKinds
     /\ sem \in 0..Cardinality(N)
-    /\ sem <= conc
-    /\ clock \in 0..TAfter
+    /\ sem <= EffConc
+    /\ clock \in 0..ClockEnd
     /\ N # {} /\ N \subseteq Pool
     /\ DOMAIN offered = N /\ DOMAIN npc = N
     /\ fails \in 0..Cardinality(N)
-    /\ ret \in {"none", "ok", "err"}
+    /\ ret \in {"none", "ok", "err", "done"}
+    /\ (ret = "done") => ~ Timed(kind)
     /\ lost \in 0..(Cardinality(N) + 1)
     /\ callNo \in 1..MaxCalls
     /\ \A n \in Pool : known[n] \subseteq Clients
@@ -425,7 +517,7 @@ TypeOK ==
 FlagSound == completed => \E n \in N : MayAccept(n)
 
 \* the time-out signal itself is never lost (the caller is registered long before T)
-TimeoutSignalHeard == (tpc = "done" /\ ret = "none") => mpc = "woken"
+TimeoutSignalHeard == (Timed(kind) /\ tpc = "done" /\ ret = "none") => mpc = "woken"
 
 \* history independence, stated directly: whatever was remembered, a node that answers its version
 \* query now is classified by that answer (the deviation "memofail" breaks exactly this)
